@@ -225,6 +225,21 @@ Fixpoint py_lt (a b : pyval) {struct a} : res bool :=
     end
   end.
 
+(** [a <= b] on numbers and strings (NaN-aware: not the negation of [b < a]) *)
+Definition num_leb (a b : num) : bool :=
+  match a, b with
+  | NZ x, NZ y => Z.leb x y
+  | _, _ => PrimFloat.leb (num_f a) (num_f b)
+  end.
+Definition py_le (a b : pyval) : res pyval :=
+  match as_num a, as_num b with
+  | Some x, Some y => Ok (VBool (num_leb x y))
+  | _, _ => match a, b with
+            | VStr s, VStr t => Ok (VBool (negb (String.ltb t s)))
+            | _, _ => Raise EType
+            end
+  end.
+Definition py_ge (a b : pyval) : res pyval := py_le b a.
 Definition py_gt (a b : pyval) : res pyval := r <- py_lt b a ;; Ok (VBool r).
 Definition py_ltv (a b : pyval) : res pyval := r <- py_lt a b ;; Ok (VBool r).
 
@@ -253,10 +268,14 @@ Fixpoint py_hashable (v : pyval) : bool :=
 (* ------------------------------------------------------------------------------------------ *)
 (** * Iteration, sequences, dicts *)
 
+Fixpoint str_chars (s : string) : list pyval :=
+  match s with EmptyString => [] | String c t => VStr (String c EmptyString) :: str_chars t end.
+
 (** what [iter(v)] yields *)
 Definition as_iter (v : pyval) : res (list pyval) :=
   match v with
   | VList l | VTuple l | VKeys l | VRow _ l => Ok l
+  | VStr s => Ok (str_chars s)
   | VDict kv => Ok (map fst kv)
   | VType "struct" fs => Ok fs
   | _ => Raise EType
@@ -306,7 +325,7 @@ Definition py_dict (v : pyval) : res pyval :=
   l <- as_iter v ;;
   kv <- fold_left (fun acc p => a <- acc ;;
                      match p with
-                     | VTuple [k; x] => Ok (dict_set a k x)
+                     | VTuple [k; x] => if py_hashable k then Ok (dict_set a k x) else Raise EType
                      | _ => Raise EType
                      end) l (Ok []) ;;
   Ok (VDict kv).
@@ -449,8 +468,10 @@ Fixpoint py_repr (rr : pyval -> res pyval) (v : pyval) {struct v} : res string :
   end.
 
 Definition py_reprv (rr : pyval -> res pyval) (v : pyval) : res pyval := s <- py_repr rr v ;; Ok (VStr s).
+(** str(Decimal('1.5')) = "1.5": the repr text without its Decimal('...') wrapper *)
+Definition dec_str (r : string) : string := String.substring 9 (String.length r - 11) r.
 Definition py_str (rr : pyval -> res pyval) (v : pyval) : res string :=
-  match v with VStr s => Ok s | _ => py_repr rr v end.
+  match v with VStr s => Ok s | VDec r _ _ => Ok (dec_str r) | _ => py_repr rr v end.
 Definition py_strv (rr : pyval -> res pyval) (v : pyval) : res pyval := s <- py_str rr v ;; Ok (VStr s).
 
 (** ["fmt" % args] with %s and %r only; [pct] = the previous character was an unconsumed '%' *)
